@@ -86,6 +86,29 @@ PROPS = {
                     'EncodingPacket: Verus on the extracted serialize/deserialize for every payload length: bytes == payload id ++ payload, and both round trips as a lemma over the two contracts',
         assumptions=['oracle: u32/u16/u64::from_be_bytes at the RFC 6330 3.2/3.3 field offsets', 'V-PKT assumes the PayloadId (de)serialisation contract that K-WIRE proves', 'CBMC/cadical, Verus/Z3 sound'],
         not_decided=[]),
+    'C14': dict(
+        level='proof', units=[('V', 'V-PARAM', 'v_param')],
+        explanation='generate_encoding_parameters (extracted with its closure kl; rules D3, D6, A1) returns exactly the RFC 6330 4.3 values for all (F, P, WS) '
+                    'for which a valid configuration exists: T = P - P mod Al, Z = ceil(Kt/KL(N_max)), N = least n with ceil(Kt/Z) <= KL(n); KL(n) = max K\' <= WS/(Al*ceil(T/(Al*n))) '
+                    'proved equal to the table scan using sortedness computed from the extracted table; lemma: larger WS never gives more blocks; derived configuration satisfies C19 validity',
+        assumptions=['Al/SS policy (8,8 for P >= 64 else 1,1) is a parameter of the spec (RFC leaves it to the application)',
+                     'round-trip clause reduces to C01 + derived configuration valid (postcondition); not re-proved here', 'Verus/Z3 sound'],
+        not_decided=['encoder/decoder round trip from derived parameters (see C01)']),
+    'C17': dict(
+        level='proof', units=[('V', 'V-CACHE', 'v_cache')],
+        explanation='lock-invariant proof (Owicki-Gries): get_or_generate_source_block_encoding_plan extracted with rule L1 (each lock() yields an ARBITRARY cache state satisfying cache_inv, i.e. whatever '
+                    'other threads left; every exit of a guard scope must re-establish cache_inv) and D4; proves: returned plan is the plan for the requested symbol count (transparency), a plan is stored only under its own count, '
+                    'at most 64 plans, FIFO and map in bijection. All interleavings are covered by mutual exclusion, not by exploration.',
+        assumptions=['std Mutex mutual exclusion / OnceLock single initialisation', 'SourceBlockEncodingPlan::generate deterministic in its argument', 'vstd HashMap/VecDeque/Arc specifications',
+                     'no panic inside a critical section other than allocation failure (no arithmetic/index obligations remain there), so poisoning is unreachable'],
+        not_decided=['that the encoder built from a plan equals the one built without a plan (plan replay == direct solve): see C06/C09 V-SLAB']),
+    'C18': dict(
+        level='proof', units=[('V', 'V-ENC', 'v_enc')],
+        explanation='repair_packets(start, n) extracted verbatim: for all K <= 56403, start, n with K + start + n <= 2^24: exactly n packets, packet i == repair_packet_spec(encoder, start + i) '
+                    '(block number, ESI K+start+i, payload Enc over ISI K\'+start+i); window==singles, overlap agreement, distinct IDs, every ESI < 2^24 producible are lemmas over that contract',
+        assumptions=['intermediate_tuple / enc_into / table look-ups are external_body here: deterministic functions of their arguments (their values are decided under C15/C04)',
+                     'Verus/Z3 sound'],
+        not_decided=['ordering of Encoder::get_encoded_packets and source_packets (iterator chains; bounded Kani unit K-PKTS planned)', 'plan interchangeability rests on generate() being deterministic (C17 assumption)']),
     'C10': dict(
         level='proof', units=[('K', 'K-GF', None)],
         explanation='all harnesses loop-free over full u8 domains (spec loop of 8 steps fully unwound with unwinding assertions): complete',
